@@ -106,7 +106,7 @@ Qed.
 End DENOTE.
 
 (* ---------------- eval_env, taken apart ---------------- *)
-Definition env_root' (root name : string) : string := if String.eqb root "" then name else root.
+Definition env_root' (root name : string) : string := if String.eqb root "" || String.eqb root "<yaml>" then name else root.
 Definition env_imports_run (W : world) (f : nat) (root name : string) (d : envdef) (s : st) :=
   env_go W (eval_env W f (env_root' root name)) (ed_imports d) [] [] (enter name s).
 (* the merged imports under the environment's own values, and the table behind ${imports.*} *)
